@@ -336,8 +336,8 @@ Proof. exact C12_order.stored_pipeline. Qed.
    at least tol apart, in any order): Interpolation(px, py) is the object with strictly increasing abscissae, the
    ordinates carried along and the divided differences as coefficient table (every generated loop of set(): argument
    dispatch, slices, zip loop, duplicate test, _order_points, _compute_table); it does not depend on the order of
-   the points; any pair of abscissae closer than tol gives ValueError.  Other input forms (two tuples, interleaved
-   scalars, copy constructor) are proved for n = 3, 4 only (C12_constructor_3/_4). *)
+   the points; any pair of abscissae closer than tol gives ValueError.  Two tuples and the copy constructor: any n
+   (C12_constructor_forms_any, C12_copy_any); interleaved scalars: n = 3, 4 only (C12_constructor_3/_4). *)
 Theorem C12_constructor_any : forall px py : list R,
   List.length py = List.length px -> (2 <= List.length px <= 64)%nat -> C12_gen.separated px ->
   let xs' := C12_order.sx px in let ys' := C12_order.sy px py in
@@ -360,6 +360,23 @@ Theorem C12_constructor_order_independent_any : forall px py px' py' : list R,
   Interpolation___init__ Rops (VObj cInterpolation [VNone; VNone; VNone; VNone]) (VTuple [C12_gen.flist px; C12_gen.flist py])
   = Interpolation___init__ Rops (VObj cInterpolation [VNone; VNone; VNone; VNone]) (VTuple [C12_gen.flist px'; C12_gen.flist py']).
 Proof. exact C12_set.init_order_independent. Qed.
+
+(* [ideal] other input forms, ANY n: two tuples give the same object as two lists (n in 2..64), and the copy
+   constructor Interpolation(obj) returns an object with the fields of obj (any table, any n) *)
+Theorem C12_constructor_forms_any : forall px py : list R,
+  List.length py = List.length px -> (2 <= List.length px <= 64)%nat -> C12_gen.separated px ->
+  Interpolation___init__ Rops (VObj cInterpolation [VNone; VNone; VNone; VNone])
+    (VTuple [VTuple (map VFloat px); VTuple (map VFloat py)])
+  = Interpolation___init__ Rops (VObj cInterpolation [VNone; VNone; VNone; VNone])
+    (VTuple [C12_gen.flist px; C12_gen.flist py]).
+Proof.
+  intros px py L Hn S. rewrite (C12_set.init_tuples px py L Hn S), (C12_set.init_lists px py L Hn S). reflexivity.
+Qed.
+Theorem C12_copy_any : forall (a b c : list R) (t : R),
+  Interpolation___init__ Rops (VObj cInterpolation [VNone; VNone; VNone; VNone])
+    (VTuple [VObj cInterpolation [C12_gen.flist a; C12_gen.flist b; C12_gen.flist c; VFloat t]])
+  = VObj cInterpolation [C12_gen.flist a; C12_gen.flist b; C12_gen.flist c; VFloat t].
+Proof. exact C12_set.init_copy. Qed.
 
 Theorem C12_duplicates_any : forall px py : list R,
   List.length py = List.length px -> (2 <= List.length px)%nat ->
@@ -513,6 +530,8 @@ Redirect "C12_order_independent_any.assumptions" Print Assumptions C12_order_ind
 Redirect "C12_stored_pipeline_any.assumptions" Print Assumptions C12_stored_pipeline_any.
 Redirect "C12_constructor_any.assumptions" Print Assumptions C12_constructor_any.
 Redirect "C12_constructor_order_independent_any.assumptions" Print Assumptions C12_constructor_order_independent_any.
+Redirect "C12_constructor_forms_any.assumptions" Print Assumptions C12_constructor_forms_any.
+Redirect "C12_copy_any.assumptions" Print Assumptions C12_copy_any.
 Redirect "C12_duplicates_any.assumptions" Print Assumptions C12_duplicates_any.
 Redirect "C12_root_step.assumptions" Print Assumptions C12_root_step.
 Redirect "C12_root_sound.assumptions" Print Assumptions C12_root_sound.
